@@ -13,7 +13,8 @@ import json, os, re, shutil, subprocess, sys, time
 from concurrent.futures import ThreadPoolExecutor
 HERE = os.path.dirname(os.path.abspath(__file__))
 ROOT = os.path.dirname(HERE)
-W = '/tmp/survey'
+W = os.environ.get('SURVEY_DIR', '/tmp/survey')
+REPO = os.environ.get('SURVEY_REPO', '/repo')     # the tree that is mutated (default: /repo; a scratch copy with refactorings applied for the 'recall on refactored code' run)
 FILES = ['src/fasta.rs', 'src/fastq.rs', 'src/lib.rs', 'src/parallel.rs', 'src/policy.rs']
 
 OPS = [
@@ -79,7 +80,7 @@ def gen(extra=False):
     os.makedirs(W, exist_ok=True)
     out = []
     for f in FILES:
-        lines = open(os.path.join('/repo', f)).read().split('\n')
+        lines = open(os.path.join(REPO, f)).read().split('\n')
         in_test = False
         for n, line in enumerate(lines):
             s = line.strip()
@@ -152,7 +153,7 @@ def worker_dir(i, build=True):
     d = os.path.join(W, 'w%d' % i)
     if not os.path.exists(d):
         os.makedirs(d)
-        subprocess.run(['rsync', '-a', '--exclude', 'target', '--exclude', '.git', '/repo/', d + '/'], check=True)
+        subprocess.run(['rsync', '-a', '--exclude', 'target', '--exclude', '.git', REPO + '/', d + '/'], check=True)
         src = os.path.join(W, 'w0', 'target')
         if i != 0 and os.path.exists(src):
             subprocess.run(['cp', '-r', src, os.path.join(d, 'target')], check=True)
@@ -161,7 +162,7 @@ def worker_dir(i, build=True):
 
 def apply(d, m):
     p = os.path.join(d, m['file'])
-    lines = open(os.path.join('/repo', m['file'])).read().split('\n')
+    lines = open(os.path.join(REPO, m['file'])).read().split('\n')
     assert lines[m['line'] - 1] == m['orig']
     lines[m['line'] - 1] = m['text']
     with open(p, 'w') as fh:
@@ -169,7 +170,7 @@ def apply(d, m):
 
 
 def restore(d, m):
-    shutil.copyfile(os.path.join('/repo', m['file']), os.path.join(d, m['file']))
+    shutil.copyfile(os.path.join(REPO, m['file']), os.path.join(d, m['file']))
 
 
 def suite_one(args):
@@ -231,7 +232,7 @@ def checks_one(args):
     i, ms = args
     d = os.path.join(W, 'c%d' % i)
     os.makedirs(d, exist_ok=True)
-    subprocess.run(['rsync', '-a', '--delete', '--exclude', 'target', '--exclude', '.git', '/repo/', d + '/'], check=True)
+    subprocess.run(['rsync', '-a', '--delete', '--exclude', 'target', '--exclude', '.git', REPO + '/', d + '/'], check=True)
     out = []
     for m in ms:
         apply(d, m)
